@@ -21,6 +21,19 @@
 (*                   index and not in the dataset afterwards               *)
 (* and under noeviction a command that stores a value is refused while the *)
 (* figure is at or above the limit.                                        *)
+(*                                                                         *)
+(* "Least frequently used" is anchored in the history, not in the cache's  *)
+(* own bookkeeping: after every command the driver asks the server         *)
+(* (OBJECTFREQ) for the access count of every key, and the variable frq    *)
+(* carries the counts from step to step (FreqOK): a key no command names   *)
+(* keeps its count, a key that is read gains at least one, a key enters    *)
+(* the cache only through a command that names it and starts at one access,*)
+(* and the counts the victim was compared with at the moment of an         *)
+(* eviction are these counts (Anchored).  "Least recently used" likewise:  *)
+(* OBJECTIDLETIME on every key gives the time of its last access (an       *)
+(* interval of wall-clock milliseconds, as wide as the call took), carried *)
+(* in lst (IdleOK): untouched keys keep it, a key that is read gets a      *)
+(* stamp not older than the command that read it.                          *)
 (***************************************************************************)
 EXTENDS Proj, Json, IOUtils, TLC
 
@@ -28,19 +41,19 @@ CONSTANT Deviations
 
 Trace == ndJsonDeserialize(IOEnv.TRACE)
 
-VARIABLES l, st, pmem, dev
-vars == <<l, st, pmem, dev>>
+VARIABLES l, st, pmem, dev, frq, lst
+vars == <<l, st, pmem, dev, frq, lst>>
 
 Ev == Trace[l]
 HasDev(n) == n \in Deviations
 
 StoringOps == {"SET", "MSET", "APPEND", "RPUSH", "LPUSH", "INCR", "SETRANGE", "HSET", "SADD", "ZADD"}
 
-Init == l = 1 /\ st = EmptyStore /\ pmem = 0 /\ dev = [n \in Deviations |-> 0]
+Init == l = 1 /\ st = EmptyStore /\ pmem = 0 /\ dev = [n \in Deviations |-> 0] /\ frq = <<>> /\ lst = <<>>
 
 TReset == /\ l <= Len(Trace) /\ Ev.ev = "reset"
           /\ st' = ProjStore(Ev.st) /\ pmem' = Ev.mem
-          /\ l' = l + 1 /\ UNCHANGED dev
+          /\ l' = l + 1 /\ frq' = <<>> /\ lst' = <<>> /\ UNCHANGED dev
 
 Ctx(e) == [S |-> st, now |-> e.now, db |-> e.db, D |-> Deviations]
 
@@ -83,13 +96,75 @@ CompleteOK(e, ev, S) ==
             (x[1] = ev.db /\ ~(x \in CmdKeys(e)) /\ (Volatile(e.policy) => (st[x].d # NoD /\ S[x].d # NoD)))
                 => x \in CandKeys(ev)
 
+\* LFU: the counts the victim was compared with are the counts of the history so far (keys the command itself
+\* names are in flux while it runs)
+Lfu(pol) == pol \in {"allkeys-lfu", "volatile-lfu"}
+Anchored(e, ev) ==
+    Lfu(e.policy) =>
+        \A c \in Cand(ev) : LET x == <<ev.db, c.key>> IN (x \in DOMAIN frq /\ ~(x \in CmdKeys(e))) => c.a = frq[x]
+
+\* the access counts reported after the command (OBJECTFREQ on every key that is there; n = -1: the command refused)
+MaxTouch == 4           \* no handler looks a key up more often than this per occurrence in its command
+FreqOf(e) ==
+    LET xs == {e.freq[i] : i \in DOMAIN e.freq}
+        ys == {f \in xs : f.n >= 0}
+    IN [x \in {<<f.db, f.key>> : f \in ys} |-> (CHOOSE f \in ys : f.db = x[1] /\ f.key = x[2]).n]
+FreqOK(e, after) ==
+    IF ~Lfu(e.policy) THEN \A i \in DOMAIN e.freq : e.freq[i].n = -1           \* no LFU policy, no counts
+    ELSE LET F == FreqOf(e)
+             named == CmdKeys(e)
+             Re(x) == x \in DOMAIN st /\ st[x].d # NoD /\ st[x].d <= e.now        \* expired before the command: a write re-creates it
+             Kept(x) == x \in DOMAIN F /\ x \in DOMAIN frq
+         IN /\ \A i \in DOMAIN e.freq : e.freq[i].n >= -1
+            \* the command reports exactly what the cache holds, and the cache holds only keys that are there
+            /\ DOMAIN F = {<<e.lfu[i].db, e.lfu[i].key>> : i \in DOMAIN e.lfu}
+            /\ \A x \in DOMAIN F : x \in DOMAIN after
+            /\ \A x \in DOMAIN F :
+                  IF x \in DOMAIN frq
+                  THEN IF x \in named
+                       THEN \/ (frq[x] <= F[x] /\ F[x] <= frq[x] + MaxTouch)
+                            \/ (Re(x) /\ F[x] \in 1..MaxTouch)
+                       ELSE F[x] = frq[x]                                          \* not named: not accessed
+                  ELSE x \in named /\ F[x] \in 1..MaxTouch                         \* enters through a command that names it
+            \* an access is counted
+            /\ (e.cmd[1].s \in {"GET", "MGET", "TOUCH"} \/ (e.policy = "allkeys-lfu" /\ e.cmd[1].s \in StoringOps /\ e.r.t # "err")) =>
+                  \A x \in named : (Kept(x) /\ ~Re(x)) => F[x] >= frq[x] + 1
+
+\* the last-access times reported after the command (OBJECTIDLETIME on every key that is there; lo = -1: refused)
+Lru(pol) == pol \in {"allkeys-lru", "volatile-lru"}
+IdleOf(e) ==
+    LET xs == {e.idle[i] : i \in DOMAIN e.idle}
+        ys == {f \in xs : f.lo >= 0}
+    IN [x \in {<<f.db, f.key>> : f \in ys} |-> LET f == CHOOSE g \in ys : g.db = x[1] /\ g.key = x[2] IN [lo |-> f.lo, hi |-> f.hi]]
+Meets(a, b) == a.lo <= b.hi /\ b.lo <= a.hi
+IdleOK(e, after) ==
+    IF ~Lru(e.policy) THEN \A i \in DOMAIN e.idle : e.idle[i].lo = -1 /\ e.idle[i].hi = -1
+    ELSE LET T == IdleOf(e)
+             named == CmdKeys(e)
+             Re(x) == x \in DOMAIN st /\ st[x].d # NoD /\ st[x].d <= e.now
+         IN /\ \A i \in DOMAIN e.idle : e.idle[i].lo >= -1 /\ e.idle[i].lo <= e.idle[i].hi
+            /\ DOMAIN T = {<<e.lru[i].db, e.lru[i].key>> : i \in DOMAIN e.lru}
+            /\ \A x \in DOMAIN T : x \in DOMAIN after
+            /\ \A x \in DOMAIN T :
+                  IF x \in DOMAIN lst
+                  THEN IF x \in named THEN T[x].hi >= lst[x].lo                      \* never older than before
+                       ELSE Meets(T[x], lst[x])                                       \* not named: not accessed
+                  ELSE x \in named /\ T[x].hi >= e.t0                                \* enters through a command that names it, now
+            \* an access refreshes the stamp
+            /\ (e.cmd[1].s \in {"GET", "MGET", "TOUCH"} \/ (e.policy = "allkeys-lru" /\ e.cmd[1].s \in StoringOps /\ e.r.t # "err")) =>
+                  \A x \in named : (x \in DOMAIN T /\ x \in DOMAIN lst /\ ~Re(x)) => T[x].hi >= e.t0
+AnchoredLru(e, ev) ==
+    Lru(e.policy) =>
+        \A c \in Cand(ev) : LET x == <<ev.db, c.key>> IN
+            (x \in DOMAIN lst /\ ~(x \in CmdKeys(e))) => (lst[x].lo <= c.a /\ c.a <= lst[x].hi)
+
 \* the evictions of one step happen one after the other: each one sees the figure the previous one left behind
 \* (m = that figure, -1 before the first), so none of them removes a key that was no longer needed
 RECURSIVE EvictFoldM(_, _, _, _, _)
 EvictFoldM(e, evs, S, strict, m) ==
     IF evs = <<>> THEN TRUE
     ELSE LET ev == Head(evs)   x == <<ev.db, ev.key>> IN
-         /\ EvictOK(e, ev, S, strict) /\ CompleteOK(e, ev, S)
+         /\ EvictOK(e, ev, S, strict) /\ CompleteOK(e, ev, S) /\ Anchored(e, ev) /\ AnchoredLru(e, ev)
          /\ (m >= 0 => ev.membefore = m)
          /\ EvictFoldM(e, Tail(evs), Minus(S, {x}), strict, ev.membefore - EntryMem(S, x))
 EvictFold(e, evs, S, strict) == EvictFoldM(e, evs, S, strict, -1)
@@ -126,6 +201,10 @@ TCmd == /\ l <= Len(Trace) /\ Ev.ev = "cmd"
                     /\ \A i \in DOMAIN e.lfu : LET x == <<e.lfu[i].db, e.lfu[i].key>> IN x \in DOMAIN after /\ after[x].d # NoD
               \* the figure is the accounted size of what is left
               /\ e.mem = MemOf(after)
+              /\ FreqOK(e, after)
+              /\ frq' = FreqOf(e)
+              /\ IdleOK(e, after)
+              /\ lst' = IdleOf(e)
               /\ st' = after /\ pmem' = e.mem
         /\ l' = l + 1
 
@@ -139,6 +218,8 @@ TStuck == /\ l <= Len(Trace) /\ l = DiagLine /\ Ev.ev = "cmd"
           /\ PrintT(<<"MISMATCH-MODEL-STATE", Norm(Minus(Outcome(Ev).S, Gone(Ev)), Ev.now)>>)
           /\ PrintT(<<"MISMATCH-LOGGED-STATE", Norm(ProjStore(Ev.st), Ev.now)>>)
           /\ PrintT(<<"MISMATCH-MEM", "MemOf(dataset after)", MemOf(ProjStore(Ev.st))>>)
+          /\ PrintT(<<"MISMATCH-NOTE", "access counts before", frq, "reported after", Ev.freq, "LFU cache", Ev.lfu>>)
+          /\ PrintT(<<"MISMATCH-NOTE", "last accesses before", lst, "reported after", Ev.idle, "LRU cache", Ev.lru, "command started at", Ev.t0>>)
           /\ FALSE /\ UNCHANGED vars
 
 Next == TReset \/ TCmd \/ TStuck
